@@ -3856,6 +3856,157 @@ theorem gen_hash (opq : V2.Opq) (c : V2.T_ClaimsData) :
   unfold V2.ClaimsData_hash
   cases h : (opq.json_MarshalClaimsData c).2 <;> simp [h]
 
+/-! ## C10 / C01: the whole chain behind an import's embedded token, on translated code -/
+
+/-- what `loadClaims` returned as activation claims came from the translated activation loader, for version 1 or 2 -/
+theorem gen_loadClaims_activation (opq : V2.Opq) (data : List Int) (ver : Int) (u : V2.T_ActivationClaims)
+    (h : V2.loadClaims data opq = some (ver, some (.ActivationClaims u), false)) :
+    (ver = 1 ∨ ver = 2) ∧ V2.loadActivation data ver opq = some (some u, false) := by
+  have hv := gen_loadClaims_version opq data ver _ h
+  simp only at hv
+  refine ⟨hv, ?_⟩
+  have g := gen_loadClaims_accepts opq data ver _ h
+  simp only at g
+  obtain ⟨_, _, g⟩ := g
+  rcases g with ⟨_, _, x, _, hc⟩ | ⟨_, _, x, _, hc⟩ | ⟨_, _, x, _, hc⟩ | ⟨_, hv', x, hx, hc⟩ |
+      ⟨_, _, x, _, hc⟩ | ⟨_, _, x, _, hc⟩ | ⟨_, _, g, _, hc⟩
+  · cases hc
+  · cases hc
+  · cases hc
+  · cases hc; rw [hv']; exact hx
+  · cases hc
+  · cases hc
+  · cases hc
+
+/-- **an activation that `DecodeActivationClaims` returns** (the decoder `Import.Validate` uses for embedded tokens)
+came out of a three-chunk token whose payload the translated activation loader read as version 1 or 2, and whose
+signature `KeyPair.Verify` accepted under the key pair of the activation's *own issuer*, over `p` or `hd.p` as the
+version dictates — every step translated from the source, down to `json.Unmarshal`, base64 and the nkeys functions -/
+theorem gen_decodeActivation_chain (opq : V2.Opq) (tok : Str) (u : V2.T_ActivationClaims) (e : Bool)
+    (h : V2.DecodeActivationClaims tok opq = some (some u, e)) :
+    e = false ∧ ∃ hd p s hdr data sig ver kp raw,
+      splitOn '.' tok = [hd, p, s] ∧
+      V2.parseHeaders hd opq = some (hdr, false) ∧
+      opq.decodeString p = some (data, false) ∧
+      (ver = 1 ∨ ver = 2) ∧ V2.loadActivation data ver opq = some (some u, false) ∧
+      opq.decodeString s = some (sig, false) ∧
+      opq.nkeys_FromPublicKey u.f_ClaimsData.f_Issuer = some kp ∧
+      opq.nkeys_Decode (opq.nkeys_Prefix u.f_ClaimsData.f_Issuer) (strBytes u.f_ClaimsData.f_Issuer) = some raw ∧ len raw = 32 ∧
+      opq.KeyPair_Verify kp (strBytes (if verUsed (.ActivationClaims u) hdr ver ≤ 1 then p else hd ++ '.' :: p)) sig = false := by
+  obtain ⟨he, hd⟩ := gen_decodeActivation opq tok u e h
+  refine ⟨he, ?_⟩
+  obtain ⟨hd', p, s, hdr, data, sig, ver, kp, raw, h1, h2, h3, h4, h5, h6, h7, h8, h9⟩ := gen_decode_authentic opq tok _ hd
+  obtain ⟨hv, hl⟩ := gen_loadClaims_activation opq data ver u h4
+  exact ⟨hd', p, s, hdr, data, sig, ver, kp, raw, h1, h2, h3, hv, hl, h5, h6, h7, h8, h9⟩
+
+theorem gen_loadClaims_operator (opq : V2.Opq) (data : List Int) (ver : Int) (u : V2.T_OperatorClaims)
+    (h : V2.loadClaims data opq = some (ver, some (.OperatorClaims u), false)) :
+    (ver = 1 ∨ ver = 2) ∧ V2.loadOperator data ver opq = some (some u, false) := by
+  have hv := gen_loadClaims_version opq data ver _ h
+  simp only at hv
+  refine ⟨hv, ?_⟩
+  have g := gen_loadClaims_accepts opq data ver _ h
+  simp only at g
+  obtain ⟨_, _, g⟩ := g
+  rcases g with ⟨_, hv', x, hx, hc⟩ | ⟨_, _, x, _, hc⟩ | ⟨_, _, x, _, hc⟩ | ⟨_, _, x, _, hc⟩ | ⟨_, _, x, _, hc⟩ | ⟨_, _, x, _, hc⟩ | ⟨_, _, g, _, hc⟩
+  · cases hc; rw [hv']; exact hx
+  · cases hc
+  · cases hc
+  · cases hc
+  · cases hc
+  · cases hc
+  · cases hc
+
+/-- the same chain for `DecodeOperatorClaims` -/
+theorem gen_decodeOperator_chain (opq : V2.Opq) (tok : Str) (u : V2.T_OperatorClaims) (e : Bool)
+    (h : V2.DecodeOperatorClaims tok opq = some (some u, e)) :
+    e = false ∧ ∃ hd p s hdr data sig ver kp raw,
+      splitOn '.' tok = [hd, p, s] ∧
+      V2.parseHeaders hd opq = some (hdr, false) ∧
+      opq.decodeString p = some (data, false) ∧
+      (ver = 1 ∨ ver = 2) ∧ V2.loadOperator data ver opq = some (some u, false) ∧
+      opq.decodeString s = some (sig, false) ∧
+      opq.nkeys_FromPublicKey u.f_ClaimsData.f_Issuer = some kp ∧
+      opq.nkeys_Decode (opq.nkeys_Prefix u.f_ClaimsData.f_Issuer) (strBytes u.f_ClaimsData.f_Issuer) = some raw ∧ len raw = 32 ∧
+      opq.KeyPair_Verify kp (strBytes (if verUsed (.OperatorClaims u) hdr ver ≤ 1 then p else hd ++ '.' :: p)) sig = false := by
+  obtain ⟨he, hd⟩ := gen_decodeOperator opq tok u e h
+  refine ⟨he, ?_⟩
+  obtain ⟨hd', p, s, hdr, data, sig, ver, kp, raw, h1, h2, h3, h4, h5, h6, h7, h8, h9⟩ := gen_decode_authentic opq tok _ hd
+  obtain ⟨hv, hl⟩ := gen_loadClaims_operator opq data ver u h4
+  exact ⟨hd', p, s, hdr, data, sig, ver, kp, raw, h1, h2, h3, hv, hl, h5, h6, h7, h8, h9⟩
+
+theorem gen_loadClaims_account (opq : V2.Opq) (data : List Int) (ver : Int) (u : V2.T_AccountClaims)
+    (h : V2.loadClaims data opq = some (ver, some (.AccountClaims u), false)) :
+    (ver = 1 ∨ ver = 2) ∧ V2.loadAccount data ver opq = some (some u, false) := by
+  have hv := gen_loadClaims_version opq data ver _ h
+  simp only at hv
+  refine ⟨hv, ?_⟩
+  have g := gen_loadClaims_accepts opq data ver _ h
+  simp only at g
+  obtain ⟨_, _, g⟩ := g
+  rcases g with ⟨_, _, x, _, hc⟩ | ⟨_, hv', x, hx, hc⟩ | ⟨_, _, x, _, hc⟩ | ⟨_, _, x, _, hc⟩ | ⟨_, _, x, _, hc⟩ | ⟨_, _, x, _, hc⟩ | ⟨_, _, g, _, hc⟩
+  · cases hc
+  · cases hc; rw [hv']; exact hx
+  · cases hc
+  · cases hc
+  · cases hc
+  · cases hc
+  · cases hc
+
+/-- the same chain for `DecodeAccountClaims` -/
+theorem gen_decodeAccount_chain (opq : V2.Opq) (tok : Str) (u : V2.T_AccountClaims) (e : Bool)
+    (h : V2.DecodeAccountClaims tok opq = some (some u, e)) :
+    e = false ∧ ∃ hd p s hdr data sig ver kp raw,
+      splitOn '.' tok = [hd, p, s] ∧
+      V2.parseHeaders hd opq = some (hdr, false) ∧
+      opq.decodeString p = some (data, false) ∧
+      (ver = 1 ∨ ver = 2) ∧ V2.loadAccount data ver opq = some (some u, false) ∧
+      opq.decodeString s = some (sig, false) ∧
+      opq.nkeys_FromPublicKey u.f_ClaimsData.f_Issuer = some kp ∧
+      opq.nkeys_Decode (opq.nkeys_Prefix u.f_ClaimsData.f_Issuer) (strBytes u.f_ClaimsData.f_Issuer) = some raw ∧ len raw = 32 ∧
+      opq.KeyPair_Verify kp (strBytes (if verUsed (.AccountClaims u) hdr ver ≤ 1 then p else hd ++ '.' :: p)) sig = false := by
+  obtain ⟨he, hd⟩ := gen_decodeAccount opq tok u e h
+  refine ⟨he, ?_⟩
+  obtain ⟨hd', p, s, hdr, data, sig, ver, kp, raw, h1, h2, h3, h4, h5, h6, h7, h8, h9⟩ := gen_decode_authentic opq tok _ hd
+  obtain ⟨hv, hl⟩ := gen_loadClaims_account opq data ver u h4
+  exact ⟨hd', p, s, hdr, data, sig, ver, kp, raw, h1, h2, h3, hv, hl, h5, h6, h7, h8, h9⟩
+
+theorem gen_loadClaims_user (opq : V2.Opq) (data : List Int) (ver : Int) (u : V2.T_UserClaims)
+    (h : V2.loadClaims data opq = some (ver, some (.UserClaims u), false)) :
+    (ver = 1 ∨ ver = 2) ∧ V2.loadUser data ver opq = some (some u, false) := by
+  have hv := gen_loadClaims_version opq data ver _ h
+  simp only at hv
+  refine ⟨hv, ?_⟩
+  have g := gen_loadClaims_accepts opq data ver _ h
+  simp only at g
+  obtain ⟨_, _, g⟩ := g
+  rcases g with ⟨_, _, x, _, hc⟩ | ⟨_, _, x, _, hc⟩ | ⟨_, hv', x, hx, hc⟩ | ⟨_, _, x, _, hc⟩ | ⟨_, _, x, _, hc⟩ | ⟨_, _, x, _, hc⟩ | ⟨_, _, g, _, hc⟩
+  · cases hc
+  · cases hc
+  · cases hc; rw [hv']; exact hx
+  · cases hc
+  · cases hc
+  · cases hc
+  · cases hc
+
+/-- the same chain for `DecodeUserClaims` -/
+theorem gen_decodeUser_chain (opq : V2.Opq) (tok : Str) (u : V2.T_UserClaims) (e : Bool)
+    (h : V2.DecodeUserClaims tok opq = some (some u, e)) :
+    e = false ∧ ∃ hd p s hdr data sig ver kp raw,
+      splitOn '.' tok = [hd, p, s] ∧
+      V2.parseHeaders hd opq = some (hdr, false) ∧
+      opq.decodeString p = some (data, false) ∧
+      (ver = 1 ∨ ver = 2) ∧ V2.loadUser data ver opq = some (some u, false) ∧
+      opq.decodeString s = some (sig, false) ∧
+      opq.nkeys_FromPublicKey u.f_ClaimsData.f_Issuer = some kp ∧
+      opq.nkeys_Decode (opq.nkeys_Prefix u.f_ClaimsData.f_Issuer) (strBytes u.f_ClaimsData.f_Issuer) = some raw ∧ len raw = 32 ∧
+      opq.KeyPair_Verify kp (strBytes (if verUsed (.UserClaims u) hdr ver ≤ 1 then p else hd ++ '.' :: p)) sig = false := by
+  obtain ⟨he, hd⟩ := gen_decodeUser opq tok u e h
+  refine ⟨he, ?_⟩
+  obtain ⟨hd', p, s, hdr, data, sig, ver, kp, raw, h1, h2, h3, h4, h5, h6, h7, h8, h9⟩ := gen_decode_authentic opq tok _ hd
+  obtain ⟨hv, hl⟩ := gen_loadClaims_user opq data ver u h4
+  exact ⟨hd', p, s, hdr, data, sig, ver, kp, raw, h1, h2, h3, hv, hl, h5, h6, h7, h8, h9⟩
+
 /-! ## Non-vacuity of the later ties: concrete environments in which the translated functions succeed -/
 
 /-- an environment that accepts every user key and whose `encode` returns a token -/
